@@ -72,7 +72,24 @@ def candidates(crate):
                         if i < len(tys) and j < len(tys) and tys[i] == tys[j] and tys[i] not in ('&soroban_sdk::Env', 'soroban_sdk::Env') \
                                 and t['args'][i]['k'] in ('copy', 'move') and t['args'][j]['k'] in ('copy', 'move'):
                             out.append(('swap-args:%d:%d' % (i, j), key, bi))
+            if t['t'] == 'call' and t['to'] >= 0 and re.search(r'core::num::<impl [iu]\d+>::(checked|wrapping|saturating)_(add|sub)$', t['callee']) and len(t['args']) == 2:
+                for ai in (0, 1):
+                    if t['args'][ai]['k'] in ('copy', 'move'):
+                        out.append(('operand-zero:T:%d' % ai, key, bi))
+            nassign = {}
+            for b2 in inst['blocks']:
+                for st2 in b2['st']:
+                    if st2['s'] == 'assign' and not st2['pl'].get('p'):
+                        nassign[st2['pl']['l']] = nassign.get(st2['pl']['l'], 0) + 1
+            named = set(pl_['l'] for pl_ in inst.get('names', {}).values() if not pl_.get('p'))
             for si, st in enumerate(b['st']):
+                if st['s'] == 'assign' and st['rv']['r'] == 'bin' and st['rv']['op'] in ('Add', 'Sub', 'AddWithOverflow', 'SubWithOverflow'):
+                    for side in ('a', 'b'):
+                        if st['rv'][side]['k'] in ('copy', 'move'):
+                            out.append(('operand-zero:%d:%s' % (si, side), key, bi))
+                if st['s'] == 'assign' and not st['pl'].get('p') and st['pl']['l'] in named and nassign.get(st['pl']['l'], 0) >= 2 \
+                        and inst['locals'][st['pl']['l']] != 'bool' and not (st['rv']['r'] == 'use' and st['rv']['o']['k'] == 'const'):
+                    out.append(('drop-update:%d' % si, key, bi))
                 if st['s'] == 'assign' and st['rv']['r'] == 'bin' and st['rv']['op'] in ('Gt', 'Ge', 'Lt', 'Le'):
                     out.append(('flip-strictness:%d' % si, key, bi))
                     if st['rv']['b']['k'] == 'const' and re.match(r'^(?:const )?-?\d+_[iu]', st['rv']['b']['v'].strip()):
@@ -103,6 +120,21 @@ def apply(crate, m):
         v = blk['st'][si]['rv']['b']['v']
         mm = re.match(r'^((?:const )?)(-?\d+)(_.*)$', v.strip())
         blk['st'][si]['rv']['b']['v'] = '%s%d%s' % (mm.group(1), int(mm.group(2)) + 1, mm.group(3))
+    elif kind.startswith('operand-zero:T:'):
+        ai = int(kind.split(':')[2])
+        t2 = copy.deepcopy(t)
+        ty = (t.get('argtys') or ['u128', 'u128'])[ai]
+        t2['args'][ai] = {'k': 'const', 'ty': ty, 'v': '0_' + ty}
+        blk['term'] = t2
+    elif kind.startswith('operand-zero:'):
+        _, si, side = kind.split(':')
+        si = int(si)
+        o = blk['st'][si]['rv'][side]
+        ty = inst['locals'][o['pl']['l']] if not o['pl'].get('p') else 'u64'
+        blk['st'][si]['rv'][side] = {'k': 'const', 'ty': ty, 'v': '0_' + ty}
+    elif kind.startswith('drop-update:'):
+        si = int(kind.split(':')[1])
+        del blk['st'][si]
     elif kind == 'negate-branch':
         a, tgt = t['arms'][0]
         t2 = dict(t)
